@@ -407,3 +407,132 @@ func SplitVote(cl *qsim.Cluster, track func()) string {
 	cl.DeliverWhere(isT(specqbft.CommitMsgType), track)
 	return fmt.Sprintf("split-vote(round %d, parts %d/%d)", rB, len(h1), len(h2))
 }
+
+// DecideThenEquivocate is a directed strategy: in the first Byzantine-led round rB (earlier rounds are lost) the Byzantine
+// leader shows value X only to the "fast" correct operators, which prepare, commit and decide it (one slow correct operator C
+// sees nothing). Then the leader equivocates: a second, correctly signed proposal for another value Y in the SAME round goes
+// to C and to the already decided operators, followed by the Byzantine prepares and commits for Y. An operator that already
+// voted in that round must not vote again, whatever happened to its instance in between (runner compaction after a
+// round-change or decided message, a timeout that came before the decided message). Variants (by the rng):
+//
+//	plain    - the fast operators decide by their own commit quorum
+//	late     - one fast operator V times out of rB first and learns the decision from the decided message of another one
+//	           (UponDecided lowers its round back to rB)
+//
+// In both, a Byzantine round-change is delivered to the decided operators before the second proposal (the real runner
+// compacts the instance after every round-change message).
+func DecideThenEquivocate(cl *qsim.Cluster, track func()) string {
+	n, h := cl.Cfg.N, cl.Cfg.Height
+	rng := cl.Rng
+	byz, hon := cl.ByzNodes(), cl.Honest()
+	if len(byz) == 0 || len(hon) < 3 {
+		return ""
+	}
+	var rB specqbft.Round
+	var b *qsim.Node
+	for r := specqbft.Round(1); r <= 3 && b == nil; r++ {
+		if nd := cl.Nodes[qsim.Leader(n, h, r)-1]; nd.Byz {
+			rB, b = r, nd
+		}
+	}
+	if b == nil || len(cl.Values) < 2 {
+		return ""
+	}
+	typeIs := func(t specqbft.MessageType) func(f *qsim.Flight) bool {
+		return func(f *qsim.Flight) bool { return f.Msg.Message.MsgType == t && len(f.Msg.Signers) == 1 }
+	}
+	any := func(*qsim.Flight) bool { return true }
+	// earlier rounds are lost
+	for r := specqbft.Round(1); r < rB; r++ {
+		cl.DropWhere(any)
+		for _, nd := range hon {
+			if st := nd.Inst(); st != nil && !st.Decided && st.Round == r {
+				_ = cl.FireTimeoutFor(nd, h, r)
+				track()
+			}
+		}
+		for _, z := range byz {
+			cl.ByzSendTo(z, cl.MkRoundChange(z, r+1, false), "round-change", hon)
+		}
+		cl.DeliverWhere(typeIs(specqbft.RoundChangeMsgType), track)
+	}
+	cl.DropWhere(any)
+	C := hon[rng.Intn(len(hon))]
+	var fast []*qsim.Node
+	for _, nd := range hon {
+		if nd != C {
+			fast = append(fast, nd)
+		}
+	}
+	if len(fast)+len(byz) < n-cl.F {
+		return ""
+	}
+	X, Y := cl.Values[0], cl.Values[1]
+	if rng.Intn(2) == 0 {
+		X, Y = Y, X
+	}
+	toFast := func(f *qsim.Flight) bool {
+		for _, nd := range fast {
+			if f.To == nd.ID {
+				return true
+			}
+		}
+		return false
+	}
+	var rcs []*specqbft.SignedMessage
+	if rB > 1 {
+		rcs = qsim.UniqueBySigner(cl.SeenOf(specqbft.RoundChangeMsgType, rB), func(m *specqbft.SignedMessage) bool { return !m.Message.RoundChangePrepared() })
+	}
+	cl.ByzSendTo(b, cl.MkProposal(b, rB, X, rcs, nil), "proposal X (fast operators only)", fast)
+	cl.DeliverWhere(func(f *qsim.Flight) bool { return typeIs(specqbft.ProposalMsgType)(f) && toFast(f) }, track)
+	for _, z := range byz {
+		cl.ByzSendTo(z, cl.MkSimple(z, specqbft.PrepareMsgType, rB, qsim.Root(X)), "prepare X", fast)
+	}
+	cl.DeliverWhere(func(f *qsim.Flight) bool { return typeIs(specqbft.PrepareMsgType)(f) && toFast(f) }, track)
+	variant := "plain"
+	var V *qsim.Node
+	if rng.Intn(2) == 0 && len(fast) >= 2 {
+		variant = "late"
+		V = fast[rng.Intn(len(fast))]
+	}
+	for _, z := range byz {
+		cl.ByzSendTo(z, cl.MkSimple(z, specqbft.CommitMsgType, rB, qsim.Root(X)), "commit X", fast)
+	}
+	if V != nil {
+		// V does not see the commit quorum: it times out first and then learns the decision from another operator's decided message
+		cl.DeliverWhere(func(f *qsim.Flight) bool { return typeIs(specqbft.CommitMsgType)(f) && toFast(f) && f.To != V.ID }, track)
+		if st := V.Inst(); st != nil && !st.Decided && st.Round == rB {
+			_ = cl.FireTimeoutFor(V, h, rB)
+			cl.Act("timeout n%d r%d (before the decided message)", V.ID, rB)
+			track()
+		}
+		cl.DeliverWhere(func(f *qsim.Flight) bool {
+			return f.To == V.ID && f.Msg.Message.MsgType == specqbft.CommitMsgType && len(f.Msg.Signers) > 1
+		}, track)
+	} else {
+		cl.DeliverWhere(func(f *qsim.Flight) bool { return typeIs(specqbft.CommitMsgType)(f) && toFast(f) }, track)
+	}
+	// nothing of all this reaches C
+	cl.DropWhere(func(f *qsim.Flight) bool { return f.To == C.ID })
+	// a Byzantine round-change to the decided operators (the runner compacts after round-change messages)
+	for _, z := range byz {
+		cl.ByzSendTo(z, cl.MkRoundChange(z, rB+1, false), "round-change", fast)
+	}
+	cl.DeliverWhere(func(f *qsim.Flight) bool { return f.Byz && typeIs(specqbft.RoundChangeMsgType)(f) && toFast(f) }, track)
+	// the equivocation: Y in the same round, to everybody
+	cl.ByzSendTo(b, cl.MkProposal(b, rB, Y, rcs, nil), "second proposal Y (same round)", hon)
+	cl.DeliverWhere(func(f *qsim.Flight) bool { return f.Byz && typeIs(specqbft.ProposalMsgType)(f) }, track)
+	for _, z := range byz {
+		cl.ByzSendTo(z, cl.MkSimple(z, specqbft.PrepareMsgType, rB, qsim.Root(Y)), "prepare Y", hon)
+	}
+	cl.DeliverWhere(func(f *qsim.Flight) bool {
+		return typeIs(specqbft.PrepareMsgType)(f) && f.Msg.Message.Root == qsim.Root(Y)
+	}, track)
+	for _, z := range byz {
+		cl.ByzSendTo(z, cl.MkSimple(z, specqbft.CommitMsgType, rB, qsim.Root(Y)), "commit Y", hon)
+	}
+	cl.DeliverWhere(func(f *qsim.Flight) bool {
+		return typeIs(specqbft.CommitMsgType)(f) && f.Msg.Message.Root == qsim.Root(Y)
+	}, track)
+	return fmt.Sprintf("decide-then-equivocate(r%d, %s)", rB, variant)
+}
